@@ -13,7 +13,6 @@ Section Thm.
   Hypothesis Hhdr : hdrdec hdr = Some (roots, 1).
   Hypothesis Hprag : exists r, hdrdec pragma_body = Some (r, 2).
   Hypothesis Hmaxh : blen hdr <= w_maxh o.
-  Hypothesis Hmaxh0 : blen hdr <= default_maxh.
   Hypothesis Hcid : w_maxcid o <= max_digest_alloc.
   Hypothesis Hkind : match k with KStorage false => negb (w_v1 o) | _ => false end = false.
 
@@ -107,7 +106,6 @@ Qed.
 Theorem C12_transparent_canon_thm k o nilroots roots segs last s0 :
   roots_ok roots ->
   blen (enc_header (roots_opt nilroots roots) 1) <= w_maxh o ->
-  blen (enc_header (roots_opt nilroots roots) 1) <= default_maxh ->
   w_maxcid o <= max_digest_alloc ->
   match k with KStorage false => negb (w_v1 o) | _ => false end = false ->
   51 + w_dpad o + w_ipad o + ld_size (blen (enc_header (roots_opt nilroots roots) 1))
@@ -117,6 +115,6 @@ Theorem C12_transparent_canon_thm k o nilroots roots segs last s0 :
     ws_file (fst (fe_finalize (run_puts sN last))) =
     ws_file (fst (fe_finalize (run_puts s0 (concat (map fst segs) ++ last)))).
 Proof.
-  intros Hr H1 H2 H3 H4 H5 H6. destruct (canon_hdr_ok nilroots roots Hr) as [Ha Hb].
-  exact (C12_transparent_thm dec_header_canon k o nilroots roots Ha Hb H1 H2 H3 H4 segs last s0 H5 H6).
+  intros Hr H1 H3 H4 H5 H6. destruct (canon_hdr_ok nilroots roots Hr) as [Ha Hb].
+  exact (C12_transparent_thm dec_header_canon k o nilroots roots Ha Hb H1 H3 H4 segs last s0 H5 H6).
 Qed.
